@@ -318,11 +318,16 @@ impl HttpSession {
         expect: ExpectProxyProtocol<TcpStream>,
     ) -> Option<HttpStateMachine> {
         debug!("{} switching to HTTP", log_context!(self));
-        match expect
-            .addresses
-            .as_ref()
-            .map(|add| (add.destination(), add.source()))
-        {
+        // A LOCAL command (e.g. a health check of the upstream proxy) or an
+        // AF_UNSPEC header carries no addresses: the PROXY protocol has the
+        // receiver use the real endpoints of the connection instead.
+        let socket = expect.front_socket();
+        match expect.addresses.as_ref().map(|add| {
+            (
+                add.destination().or_else(|| socket.local_addr().ok()),
+                add.source().or_else(|| socket.peer_addr().ok()),
+            )
+        }) {
             Some((Some(public_address), Some(session_address))) => {
                 let session_ulid = rusty_ulid::Ulid::generate();
                 let frontend = mux::Connection::new_h1_server(
